@@ -168,7 +168,7 @@ CONTRACTS_PC = dict(CONTRACTS, **{
     'stdnum.iso7064.mod_97_10:calc_check_digits': 'Py.Contracts.mod_97_10_calc_check_digits_pc',
     'stdnum.iso7064.mod_97_10:_to_base10': 'Py.Contracts.to_base10_pc',
 })
-PC_ERASE = ['Py.dictGet_spec2', 'Py.groupNamedR_spec', 'Py.groupR_spec', 'Py.intOf_spec', 'Py.intOfBase_spec', 'Py.getItem_spec', 'Py.getItem_spec2', 'Py.getItemL_spec', 'Py.getItemL_spec2',
+PC_ERASE = ['Py.mapM_spec2', 'Py.dictGet_spec2', 'Py.groupNamedR_spec', 'Py.groupR_spec', 'Py.intOf_spec', 'Py.intOfBase_spec', 'Py.getItem_spec', 'Py.getItem_spec2', 'Py.getItemL_spec', 'Py.getItemL_spec2',
             'Py.index_spec', 'Py.indexL_spec', 'Py.dictGet_spec', 'Py.optGet_spec', 'Py.pymod_spec', 'Py.pyfloordiv_spec',
             'Py.pydivmod_spec', 'Py.mkDate_spec', 'Py.monthrangeDays_spec', 'Py.ord_spec', 'Py.chr_spec', 'Py.asciiOnly_spec',
             'Py.mapM_spec', 'Py.filterMapM_spec', 'Py.maxInt_spec', 'Py.minInt_spec', 'Py.pypow_spec', 'Py.pypowmod_spec',
@@ -215,6 +215,23 @@ def contract_closure(F, key, contracts=None, no_callee=()):
                 continue
             st.append(c)
     return unfold, specs, callees
+
+
+def _db_generalize(man, F, keys, indent='  '):
+    """tactic text that unfolds the functions `keys` and abstracts the registry constants they mention (mvcgen cannot
+    cope with the 40 KB string literal behind `Gen.db_*.db`)"""
+    dbs = set()
+    for c in keys:
+        gp = os.path.join(common.LEAN_DIR, 'Gen', man['modules'][c.split(':')[0]]['ns'] + '.lean')
+        try:
+            dbs |= set(re.findall(r'Gen\.db_\w+\.db\b', open(gp).read()))
+        except OSError:
+            pass
+    if not dbs:
+        return ''
+    fl = [F[c]['lean'] for c in keys]
+    return ''.join('%stry unfold %s\n' % (indent, f) for f in fl + fl) + ''.join(
+        '%stry generalize %s = db__%d at *\n' % (indent, d, i) for i, d in enumerate(sorted(dbs)))
 
 
 def _contract(man, fam, post, post_name, exc='e.isValidation = true', pc=False, exclude=()):
@@ -275,7 +292,7 @@ def _contract(man, fam, post, post_name, exc='e.isValidation = true', pc=False, 
                 '  try generalize %s = db__%d at *\n' % (d, i) for i, d in enumerate(sorted(dbs)))
         extra = (['-' + x for x in PC_ERASE] + PC_SPECS) if pc else []
         src = pre + ('set_option maxHeartbeats %d in\ntheorem %s %s%s :\n    Py.Holds (%s%s) (fun v => %s) (fun %s => %s) := by\n'
-                     '  apply Py.holds_of_triple\n%s  mvcgen [%s]\n%s' % (
+                     '  refine Py.holds_of_triple _ _ _ ?_\n%s  mvcgen [%s]\n%s' % (
                          CONTRACT_HEARTBEATS, name, today, bs, v['lean'], args, post, 'e' if re.search(r'\be\b', exc) else '_', exc, gen,
                          ', '.join([F[c]['lean'] for c in unfold] + sorted(set(specs)) + ['Py.stateT_pure_apply', 'Py.earlyReturn_eq'] + extra), script))
         out.append({'name': name, 'ns': ns, 'covers': mod, 'family': fam, 'src': src, 'imports': sorted(imports),
@@ -328,7 +345,7 @@ def fam_c02_fixed(man):
             'set_option maxHeartbeats %d in\n'
             'theorem %s.validate_shape %s%s :\n'
             '    Py.Holds (%s%s %s%s) (fun v => %s %s = .ok v ∧ IsDigits v) (fun _ => True) := by\n'
-            '  apply Py.holds_of_triple\n  mvcgen [%s]\n%s\n' % (
+            '  refine Py.holds_of_triple _ _ _ ?_\n  mvcgen [%s]\n%s\n' % (
                 CONTRACT_HEARTBEATS, pfx, today, bs, v['lean'], vt, first, opts, c['lean'], first, mv, VC_SCRIPT_PC) +
             'theorem %s.compact_of_digits (v : Str) (h : IsDigits v) : %s v = .ok v := by\n'
             '  unfold %s\n  py_compact_digits h\n\n' % (pfx, c['lean'], c['lean']) +
@@ -378,7 +395,7 @@ def fam_c02_idem(man):
         src = ('set_option maxHeartbeats %d in\n'
                'theorem %s.validate_compact %s%s :\n'
                '    Py.Holds (%s%s %s%s) (fun v => %s) (fun _ => True) := by\n'
-               '  apply Py.holds_of_triple\n  mvcgen [%s]\n'
+               '  refine Py.holds_of_triple _ _ _ ?_\n  mvcgen [%s]\n'
                '  try any_goals (exact post⟨fun _ => ⌜True⌝, fun _ => ⌜True⌝⟩)\n'
                '  all_goals (try (mleave; done))\n'
                '  all_goals (clear_jps; py_c02 %s)\n\n' % (
@@ -401,7 +418,7 @@ def fam_c02_idem(man):
 
 def _validate_gate_facts(src):
     """gates of `def validate` that are stated on the returned variable `number` at top level: Lean propositions
-    about `v` (used as the summary of an accepted number in the getter theorems)"""
+    about `v` (used as the summary of an accepted number in the getter theorems); `v0` stands for validate's argument"""
     m = re.search(r'^def validate .*?(?=^def |^end )', src, re.S | re.M)
     if not m:
         return []
@@ -409,7 +426,12 @@ def _validate_gate_facts(src):
     if not re.search(r'^  return number\s*$', body, re.M):
         return []
     facts = []
-    if re.search(r'^  if !\(← Gen\.util\.isdigits number\) then', body, re.M):
+    cm = re.search(r'^  number := \(← (Gen\.[A-Za-z0-9_]+\.compact) number\)\s*$', body, re.M)
+    if cm:
+        facts.append('%s v0 = .ok v' % cm.group(1))
+    if (re.search(r'^  if !\(← Gen\.util\.isdigits number\) then', body, re.M)
+            or re.search(r'^  if \(← \(do if !\(← Gen\.util\.isdigits number\) then pure true else', body, re.M)
+            or re.search(r'^  if \(!\(← Gen\.util\.isdigits number\) \|\| ', body, re.M)):
         facts.append('isDigitsB v = true')
     lm = re.search(r'^  if \(\(\(number\)\.length : Int\) != \((\d+) : Int\)\) then', body, re.M)
     if lm:
@@ -467,39 +489,48 @@ def fam_c12_getters(man):
                 facts = _validate_gate_facts(open(os.path.join(common.LEAN_DIR, 'Gen', ns + '.lean')).read())
             except OSError:
                 facts = []
+            header = ('set_option maxHeartbeats %d in\n'
+                      'theorem %s %s(v : Str) %s %s\n    (h : %s = .ok v) :\n    %s := by\n' % (
+                          CONTRACT_HEARTBEATS, name, today, vbs, gbs, vcall, goal))
+            # general variant: the getter contract is proved inside the post-condition of the pc run of validate
+            slow = ('have hs : Py.Holds (%s) (fun r => r = v → %s) (fun _ => True) := by\n'
+                    '  refine Py.holds_of_triple _ _ _ ?_\n%s'
+                    '  mvcgen [%s]\n'
+                    '  try any_goals (exact post⟨fun _ => ⌜True⌝, fun _ => ⌜True⌝⟩)\n'
+                    '  all_goals (try (mleave; done))\n'
+                    '  all_goals (clear_jps; intros; py_zeta; (try py_subst_inacc); (try py_fixpoint_rw); (try subst_vars); refine Py.holds_of_triple _ _ _ ?_; mvcgen [%s]\n'
+                    '    <;> (try (first | exact post⟨fun _ => ⌜True⌝, fun e => ⌜e.isValidation = true⌝⟩ | (mleave; done))))\n'
+                    '  all_goals (clear_jps; py_vc)\n'
+                    'exact Py.holds_ok (Q := fun r => r = v → %s) h hs rfl\n' % (
+                        vcall, goal, _db_generalize(man, F, sorted(set(vunfold + gunfold), key=(vunfold + gunfold).index), '  '),
+                        mv_v, mv_g, goal))
             if facts:
                 # cheap variant: summarise the accepted number by the top-level gates, then verify the getter once
-                fact = ' ∧ '.join(facts)
-                pat = ', '.join('hf%d' % i for i in range(len(facts)))
-                src = ('set_option maxHeartbeats %d in\n'
-                       'theorem %s %s(v : Str) %s %s\n    (h : %s = .ok v) :\n    %s := by\n'
-                       '  have hs : Py.Holds (%s) (fun v => %s) (fun _ => True) := by\n'
-                       '    apply Py.holds_of_triple\n'
-                       '    mvcgen [%s]\n'
-                       '    try any_goals (exact post⟨fun _ => ⌜True⌝, fun _ => ⌜True⌝⟩)\n'
-                       '    all_goals (try (mleave; done))\n'
-                       '    all_goals (clear_jps; py_gates)\n'
-                       '  rw [h] at hs\n'
-                       '  obtain ⟨%s⟩ : %s := hs\n'
-                       '  apply Py.holds_of_triple\n'
-                       '  mvcgen [%s]\n%s' % (
-                           CONTRACT_HEARTBEATS, name, today, vbs, gbs, vcall, goal, vcall, fact, mv_v, pat, fact, mv_g, VC_SCRIPT))
-                out.append({'name': name, 'ns': ns + '__' + gname, 'covers': mod + ':' + gname, 'family': 'C12g', 'src': src,
-                            'imports': sorted(imports),
-                            'prelude': 'open Py Std.Do\nset_option mvcgen.warning false\nset_option linter.unusedVariables false\npy_setup\n'})
-                continue
-            src = ('set_option maxHeartbeats %d in\n'
-                   'theorem %s %s(v : Str) %s %s\n    (h : %s = .ok v) :\n    %s := by\n'
-                   '  have hs : Py.Holds (%s) (fun r => r = v → %s) (fun _ => True) := by\n'
-                   '    apply Py.holds_of_triple\n'
-                   '    mvcgen [%s]\n'
-                   '    try any_goals (exact post⟨fun _ => ⌜True⌝, fun _ => ⌜True⌝⟩)\n'
-                   '    all_goals (try (mleave; done))\n'
-                   '    all_goals (clear_jps; intro heq__; py_zeta; py_getter_eq heq__; apply Py.holds_of_triple; mvcgen [%s]\n'
-                   '      <;> (try (first | exact post⟨fun _ => ⌜True⌝, fun e => ⌜e.isValidation = true⌝⟩ | (mleave; done))))\n'
-                   '    all_goals (clear_jps; py_vc)\n'
-                   '  rw [h] at hs\n  exact hs rfl\n' % (
-                       CONTRACT_HEARTBEATS, name, today, vbs, gbs, vcall, goal, vcall, goal, mv_v, mv_g))
+                cfun = facts[0].split(' ')[0] if facts[0].endswith(' v0 = .ok v') else None
+                fact0 = ' ∧ '.join(facts)
+                fact = fact0.replace(' v0 = ', ' v = ')          # after instantiation: input = result = v
+                factr = re.sub(r'\bv\b', 'r', fact0).replace(' v0 = ', ' v = ')   # post-condition of the pc run, result r
+                dest = ('have hq : %s := Py.holds_ok (Q := fun r => %s) h hs\nclear hs\n' % (fact, factr)) + (
+                    ''.join('have hf%d := hq%s\n' % (i, ''.join(['.2'] * i) + ('.1' if i < len(facts) - 1 else '')) for i in range(len(facts)))
+                    if len(facts) > 1 else 'have hf0 := hq\n')
+                cheap = ('have hs : Py.Holds (%s) (fun r => %s) (fun _ => True) := by\n'
+                         '  refine Py.holds_of_triple _ _ _ ?_\n%s'
+                         '  mvcgen [%s]\n'
+                         '  try any_goals (exact post⟨fun _ => ⌜True⌝, fun _ => ⌜True⌝⟩)\n'
+                         '  all_goals (try (mleave; done))\n'
+                         '  all_goals (clear_jps; %s)\n'
+                         '%s%s'
+                         'refine Py.holds_of_triple _ _ _ ?_\n%s'
+                         'mvcgen [%s]\n%s' % (
+                             vcall, factr, _db_generalize(man, F, vunfold, '  '), mv_v,
+                             ('py_gates_c ' + cfun) if cfun else 'py_gates', dest,
+                             ('py_compact_eq hf0 %s\n' % cfun) if cfun else '', _db_generalize(man, F, gunfold, ''), mv_g,
+                             VC_SCRIPT.replace('\n  ', '\n')[2:]))
+                ind = lambda t, n: ''.join((' ' * n + ln + '\n') for ln in t.rstrip('\n').split('\n'))
+                src = header + '  first\n  | (\n' + ind(cheap, 4) + '    )\n  | (\n' + ind(slow, 4) + '    )\n'
+            else:
+                ind = lambda t, n: ''.join((' ' * n + ln + '\n') for ln in t.rstrip('\n').split('\n'))
+                src = header + ind(slow, 2)
             out.append({'name': name, 'ns': ns + '__' + gname, 'covers': mod + ':' + gname, 'family': 'C12g', 'src': src, 'imports': sorted(imports),
                         'prelude': 'open Py Std.Do\nset_option mvcgen.warning false\nset_option linter.unusedVariables false\npy_setup\n'})
     return out
@@ -626,7 +657,7 @@ def fam_c05_generators(man):
                      'set_option maxHeartbeats %d in\n'
                      'theorem %s %s%s (v : Str)\n    (h : %s = .ok v) :\n    %s := by\n'
                      '  have hs : Py.Holds (%s) (fun v => %s) (fun _ => True) := by\n'
-                     '    apply Py.holds_of_triple\n    mvcgen [%s]\n'
+                     '    refine Py.holds_of_triple _ _ _ ?_\n    mvcgen [%s]\n'
                      '    try any_goals (exact post⟨fun _ => ⌜True⌝, fun _ => ⌜True⌝⟩)\n'
                      '    all_goals (try (mleave; done))\n'
                      '    all_goals (clear_jps; py_c05)\n'
